@@ -396,6 +396,13 @@ fn cases(args: &Args, rng: &mut Rng) -> Vec<Case> {
     // SACKs that arrive after newer ones: with a smaller cumulative TSN (ignored since 5cfc04a) and with the same one (known finding)
     v.push(c13_case(4096, 16, 256 * 1024, 200, &[30_000], faults_parse("A.TSN.5.dropn3+B.SACK.1.late4"), None));
     v.push(c13_case(4096, 16, 256 * 1024, 200, &[30_000], faults_parse("A.TSN.1.dropn3+B.SACK.1.late3"), None));
+    // a partially reliable channel with loss: FORWARD-TSN is legitimate while something abandoned is unacknowledged,
+    // and has to stop once the peer's cumulative ack has passed it (quiescence)
+    for (f, mr) in [("A.TSN.1.dropn2", 0u16), ("A.TSN.2.dropn3+B.SACK.2.drop", 1), ("-", 0)] {
+        let mut c = c13_case(32_768, 4, 65_536, 80, &[3000, 200, 5000], faults_parse(f), None);
+        for side in 0..2 { c.chans[side][0].max_retransmits = Some(mr); }
+        v.push(c);
+    }
     let nrand = if args.tier_thorough { 200 } else { 10 };
     for _ in 0..nrand {
         let nf = rng.range(1, 4) as usize;
@@ -474,6 +481,8 @@ pub fn run(args: &Args) {
     let mut rng = Rng::new(args.seed);
     func_cases(&mut run, &mut rng, args.tier_thorough);
     sender_cases(&mut run, &mut rng, args.tier_thorough);
+    // `handle_sack` as a function (window variable, flight accounting, retransmissions it triggers) on SACK histories
+    crate::props::c01::hsack_cases(&mut run, &mut rng, false);
     let cs = cases(args, &mut rng);
     let nthreads = std::env::var("VERIF_THREADS").ok().and_then(|v| v.parse().ok()).unwrap_or(6usize);
     let next = std::sync::atomic::AtomicUsize::new(0);
